@@ -64,7 +64,8 @@ def main():
         items = [i for i in items if i[0] in keep]
     out = []
     for mid, patch, props, harmless in items:
-        r = run_one(mid, patch, props, [x for x in a.extra.split(",") if x])
+        extra = sorted(PROPS) if a.extra == "all" else [x for x in a.extra.split(",") if x]
+        r = run_one(mid, patch, props, extra)
         r["harmless"] = harmless
         r["expected"] = props
         if r["applied"]:
